@@ -75,6 +75,10 @@ Proof.
   induction n as [|n IH]; intro ts; [reflexivity|].
   cbn [passes_exec times]. rewrite IH, arm_idem_map. unfold pass_exec. rewrite map_map. reflexivity.
 Qed.
+Lemma passes_times ri fs n ts :
+  passes_events ri fs n ts = times n (events_sel false fs (map (arm ri) ts))
+  /\ passes_exec ri fs n ts = times n (map (exec_count fs) (map (arm ri) ts)).
+Proof. split; [apply passes_events_times | apply passes_exec_times]. Qed.
 Lemma flat_map_times {A B} (f : A -> list B) n l : flat_map f (times n l) = times n (flat_map f l).
 Proof. induction n as [|n IH]; [reflexivity|]. cbn [times]. rewrite flat_map_app, IH. reflexivity. Qed.
 
